@@ -16,7 +16,8 @@ void W(DString * out, const char * source, token * t, scratch_pad * scratch);
 static token * g_caption_chain; static bool g_cap, g_cap_rendered; static unsigned g_asked;
 bool table_has_caption(token * t) { g_asked++; return g_cap; }
 void TREE(DString * out, const char * source, token * t, scratch_pad * scratch) { if (t != NULL && t == g_caption_chain) { g_cap_rendered = true; } }
-char * label_from_token(const char * source, token * t) { char * r = malloc(2); r[0] = 'x'; r[1] = 0; return r; }
+static token * g_lab_tok; static unsigned g_lab_calls;
+char * label_from_token(const char * source, token * t) { g_lab_tok = t; g_lab_calls++; char * r = malloc(2); r[0] = 'x'; r[1] = 0; return r; }
 void read_table_column_alignments(const char * source, token * table, scratch_pad * scratch) {
 	IN(unsigned char, n); ASSUME(n <= 2); scratch->table_column_count = n;
 	for (int i = 0; i < 2; i++) { char c; scratch->table_alignment[i] = c; }
@@ -40,7 +41,13 @@ void h_table(void) {
 	token * br = mk(PAIR_BRACKET, 4, 3); para->child = br;
 	token * open = mk(BRACKET_LEFT, 4, 1), * txt = mk(TEXT_PLAIN, 5, 1), * close = mk(BRACKET_RIGHT, 6, 1);
 	br->child = open; open->next = txt; txt->prev = open; txt->next = close; close->prev = txt; open->tail = close; open->mate = close; close->mate = open;
-	IN(bool, second); if (second) { token * br2 = mk(PAIR_BRACKET, 7, 3); br->next = br2; br2->prev = br; br->tail = br2; }
+	/* the caption paragraph: [caption]   |   [caption][label] (adjacent)   |   [caption] [label] (table_has_caption accepts the space) */
+	IN(unsigned char, shape); ASSUME(shape <= 2); token * br2 = NULL;
+	if (shape == 1) { br2 = mk(PAIR_BRACKET, 7, 3); br->next = br2; br2->prev = br; br->tail = br2; }
+	if (shape == 2) { token * sp = mk(TEXT_PLAIN, 7, 1); br2 = mk(PAIR_BRACKET, 8, 3); br->next = sp; sp->prev = br; sp->next = br2; br2->prev = sp; br->tail = br2; }
+	/* (C10) the ONE rule by which a captioned table's label is chosen -- shared with process_table_to_link (unit c10_table_link_label),
+	 * which registers the cross-reference target: the bracket pair DIRECTLY after the caption if there is one, else the caption */
+	token * expect_lab = (shape == 1) ? br2 : br;
 	g_caption_chain = open;
 	scratch_pad * scratch = ALLOC(sizeof(scratch_pad));
 	scratch->padded = 2; scratch->recurse_depth = 1; scratch->skip_token = 0; { IN(unsigned long, ext); scratch->extensions = ext; }
@@ -53,6 +60,7 @@ void h_table(void) {
 #ifdef EXPECT_ID
 	ASSERT(!g_cap || g_id_printed, "C10: a captioned table is given its id for every setting of the extensions (the cross-reference to it is registered unconditionally)");
 #endif
+	ASSERT(g_lab_calls == 0 || g_lab_tok == expect_lab, "C10: the table's id / label is made from the same token process_table_to_link registers the cross-reference for (adjacent [label], else the caption)");
 	ASSERT((scratch->skip_token != 0 ? 1 : 0) == (g_cap_rendered ? 1 : 0), "C02: the token after a table is skipped if and only if this arm rendered it as the table's caption");
 	ASSERT((g_cap_rendered ? 1 : 0) == (g_cap ? 1 : 0), "C02: the caption is rendered exactly when table_has_caption says there is one");
 	ASSERT(scratch->skip_token == 0 || scratch->skip_token == 1, "exactly one token is skipped");
